@@ -10,6 +10,7 @@ use openmls::prelude::{MlsGroup, Sender, StagedCommit};
 
 use crate::MDK;
 use crate::error::Error;
+use crate::extension::NostrGroupDataExtension;
 
 use super::Result;
 
@@ -54,6 +55,11 @@ where
     ) -> Result<()> {
         self.validate_commit_authorization(mls_group, &staged_commit, commit_sender)?;
         self.validate_commit_identities(mls_group, &staged_commit, commit_sender)?;
+
+        // Everything after the merge relies on the group-data extension of the new epoch
+        // (metadata sync, admin checks): a commit whose group context carries no decodable
+        // group-data extension is refused here, before anything is changed.
+        NostrGroupDataExtension::from_group_context(staged_commit.group_context())?;
 
         let group_id: GroupId = mls_group.group_id().into();
 
